@@ -217,6 +217,13 @@ class SymArray(_np.ndarray):
     def __gt__(self, o): return self._cmp(o, lambda x, y: x > y)
     def __ge__(self, o): return self._cmp(o, lambda x, y: x >= y)
     __hash__ = None
+class MaskIdxArray(_np.ndarray):
+    """np.arange(n)[mask] with a mask of SymBool (object array): every mask element is decided by a solver fork, then numpy indexes as usual"""
+    def __getitem__(self, key):
+        if isinstance(key, _np.ndarray) and key.dtype == object and key.shape == self.shape and all(isinstance(v, (SymBool, bool, _np.bool_)) for v in key.ravel()):
+            key = _np.array([bool(v) for v in key.ravel()], dtype=bool).reshape(key.shape)
+        r = _np.ndarray.__getitem__(self, key)
+        return _np.asarray(r) if isinstance(r, _np.ndarray) else r
 def _elementwise(x, f):
     x = _np.asarray(x, dtype=object); out = _np.empty(x.shape, dtype=object)
     for idx in _np.ndindex(x.shape): out[idx] = f(x[idx])
@@ -335,6 +342,11 @@ def _sym_mixed(s, name):
 Sym._mixed = _sym_mixed
 for _n in ("arcsin", "arccos", "sin", "cos", "sqrt", "degrees", "radians"): setattr(NPProxy, _n, _mixed_ufunc(_n))
 NP = NPProxy()
+class NPProxyMaskIdx(NPProxy):
+    """opt-in variant: np.arange(...) can be indexed by a mask of SymBool (solver forks per element)"""
+    def arange(self, *a, **k):
+        r = _np.arange(*a, **k)
+        return r.view(MaskIdxArray) if r.dtype.kind in "iu" else r
 
 class MathProxy:
     """`math` stand-in: dispatches on Sym"""
